@@ -324,6 +324,9 @@ func c16Run(e *core.Env) {
 			a = append(a, jr.C(d, accSavings), jr.O(d, "Assets:Later"), jr.T(d, "later", jr.B(accOpening, "Assets:Later", "3", "USD")),
 				jr.O(d, accSavings), jr.T(d, "savings", jr.B(accOpening, accSavings, "4", "USD")))
 		}
+		// an accrual in a foreign commodity: every instalment is valued at the price of its own day
+		a = append(a, jr.Dir{Kind: jr.Trx, Date: dates[0], Desc: "accrued usd", Books: []jr.Booking{jr.B(accChecking, accRent, "300", "USD")},
+			Accrue: &jr.Accrual{Interval: "monthly", Start: "2020-01-30", End: "2020-03-31", Acc: accSavings}})
 		return a
 	}
 	plans := []plan{{mk(d3), 2}, {mk(d3[:2]), 3}}
